@@ -2,4 +2,7 @@
 
 package all
 
-import _ "verif/harness/internal/props/c15"
+import (
+	_ "verif/harness/internal/props/c15"
+	_ "verif/harness/internal/props/c15/proxy"
+)
